@@ -69,11 +69,13 @@ def allOptima (I : Inst) (profit : Pid → Rat) (init : List Pid) : List (List P
     (fun s => decide (sumOver s profit = optValue I profit init))
 
 /-- `max_additive_utilitarian_welfare_primal_dual_scheme`: `enum` is the order in which the
-    implementation meets the projects of the instance (a permutation of them). -/
+    implementation meets the projects of the instance (a permutation of them).  Only projects with a positive
+    cost and a non-negative total satisfaction become knapsack items (a project of negative total satisfaction
+    is never needed in an optimum; the branch-and-bound is only complete for non-negative profits). -/
 def primalDual (I : Inst) (profit : Pid → Rat) (init : List Pid) (enum : List Pid) : List Pid :=
   let free := enum.filter (fun p => !init.contains p)
   let zero := free.filter (fun p => decide (I.cost p = 0) && decide (0 < profit p))
-  let cands := free.filter (fun p => !decide (I.cost p = 0))
+  let cands := free.filter (fun p => !decide (I.cost p = 0) && decide (0 ≤ profit p))
   let sorted := sortLe (fun a b => decide (profit b / I.cost b ≤ profit a / I.cost a)) cands
   let items : Array Knap.Item := (sorted.map (fun p => ⟨I.cost p, profit p⟩)).toArray
   let cap := I.budget - costOf I.cost (init ++ zero)
